@@ -248,7 +248,19 @@ def run_k3(tier, seed, shapes=None, per_shape=None, tag="all"):
     rc2, model, err2 = parallel_run(DRIVER, ["k3"], cases, shards=16)
     full_cases = [full_log_case(c) for c in cases]
     rc3, full, err3 = parallel_run(DRIVER, ["k3"], full_cases, shards=16)
-    res = analyse(cases, impl, model, full)
+    # by-key terminals: the survivors of the chain, to judge ties independently of any tie rule
+    idx = [i for i, c in enumerate(cases) if fields(c)["term"].split(":")[0] in ("minkey", "maxkey")]
+    surv_cases = []
+    for i in idx:
+        f = fields(cases[i])
+        surv_cases.append("id=%s shape=%s known=%s in=%s ops=%s term=cv avail=%s sched=- fuel=100000" % (
+            f["id"], f["shape"], f["known"], f["in"], f["ops"], f["avail"]))
+    rc4, surv, err4 = parallel_run(DRIVER, ["k3"], surv_cases, shards=16)
+    survivors = {}
+    for i, line in zip(idx, surv):
+        r_ = fields(line).get("res", "L:-")
+        survivors[i] = [] if r_ in ("L:-", "P") else [int(x) for x in r_[2:].split(",")]
+    res = analyse(cases, impl, model, full, survivors)
     res["errors"] = []
     if rc1 != 0:
         res["errors"].append("k3 harness: rc=%d %s" % (rc1, err1[-400:]))
@@ -263,7 +275,8 @@ def nt_of(tok):
     return int(tok.split(":")[1])
 
 
-def analyse(cases, impl, model, full):
+def analyse(cases, impl, model, full, survivors=None):
+    survivors = survivors or {}
     """Compares implementation and model per case and evaluates the direct oracles.
     Returns mismatches per correspondence and oracle failures per property."""
     out = {"total": len(cases), "mismatch": {}, "oracle": {}, "dist": Counter(), "samples": [],
@@ -285,7 +298,7 @@ def analyse(cases, impl, model, full):
         out["dist"]["oracle_" + prop] += 1
 
     seen_nontrivial = set()
-    for c, a, m, fl in zip(cases, impl, model, full):
+    for ci_, (c, a, m, fl) in enumerate(zip(cases, impl, model, full)):
         cf = fields(c)
         af, mf, ff = fields(a), fields(m), fields(fl)
         term = cf["term"].split(":")[0]
@@ -306,14 +319,39 @@ def analyse(cases, impl, model, full):
             continue
         # --- K3 result correspondence (C01-C04, C06, C07, C09, C15b)
         if af["res"] != mf["res"]:
-            same = False
-            if term in ("minkey", "maxkey") and nt2 != 1 and af["res"].startswith("O:") and mf["res"].startswith("O:") \
-                    and af["res"] != "O:-" and mf["res"] != "O:-":
-                # ties: any extremal element is allowed when the combination order depends on the schedule
+            tie = False
+            if term in ("minkey", "maxkey") and af["res"].startswith("O:") and af["res"] != "O:-" and ci_ in survivors:
+                # any extremal survivor satisfies C03; which one is returned on a tie is a matter of
+                # the sequential clause only (std: first minimum, last maximum)
                 m_ = int(cf["term"].split(":")[1])
-                same = int(af["res"][2:]) % m_ == int(mf["res"][2:]) % m_ and af["res"][2:] in (cf["in"].split(",") + [af["res"][2:]])
-            if not same:
+                surv = survivors[ci_]
+                v = int(af["res"][2:])
+                if surv and v in surv:
+                    keys = [x % m_ for x in surv]
+                    best = min(keys) if term == "minkey" else max(keys)
+                    tie = (v % m_ == best)
+            if not tie:
                 mism("result", c, af["res"], mf["res"])
+            elif nt2 == 1 and term == "minkey" and v != next(x for x in surv if x % m_ == best):
+                mism("seq_tie", c, af["res"], mf["res"])
+            elif nt2 == 1 and term == "maxkey":
+                first = next(x for x in surv if x % m_ == best)
+                last = next(x for x in reversed(surv) if x % m_ == best)
+                if v not in (first, last):
+                    mism("seq_tie", c, af["res"], mf["res"])
+                elif v == first and first != last:
+                    out["known"]["C09_max_tie"] = out["known"].get("C09_max_tie", 0) + 1
+                    out["known"].setdefault("C09_max_tie_sample", c[:400])
+        if af["res"] == mf["res"] and term == "maxkey" and nt2 == 1 and ci_ in survivors and af["res"] not in ("O:-", "P"):
+            m_ = int(cf["term"].split(":")[1])
+            surv = survivors[ci_]
+            if surv:
+                best = max(x % m_ for x in surv)
+                first = next(x for x in surv if x % m_ == best)
+                last = next(x for x in reversed(surv) if x % m_ == best)
+                if int(af["res"][2:]) == first and first != last:
+                    out["known"]["C09_max_tie"] = out["known"].get("C09_max_tie", 0) + 1
+                    out["known"].setdefault("C09_max_tie_sample", c[:400])
         # --- params / kind (C12)
         ip = af["params"].split("|")[0]
         if ip != mf["params"]:
